@@ -50,7 +50,24 @@ class Produced:
         self.n = n
 
 
+def _many_waiters(tier: str):
+    # MANY callers waiting for ONE in-flight invocation (4..9; thorough 17): all of them get its
+    # outcome, whichever of them is cancelled meanwhile, however long the list of waiters grows
+    for n in (4, 5, 6, 9) if tier == "quick" else (4, 5, 6, 7, 9, 12, 17):
+        for outcome in ("value", "exc"):
+            for cancels in (0, 1):
+                for variant in ("function", "method"):
+                    if variant == "method" and (cancels or n > 6):
+                        continue
+                    yield {"keys": "a" * n, "limit": 1, "expiration": None, "outcome": outcome, "cancels": cancels, "batch": 1, "variant": variant}
+        # ... and a second key arriving in between (limit 2: nothing is evicted; limit 1: the first
+        # entry is evicted while its invocation is in flight - the waiters still get its outcome)
+        for limit in (1, 2):
+            yield {"keys": "aab" + "a" * (n - 3), "limit": limit, "expiration": None, "outcome": "value", "cancels": 0, "batch": 1, "variant": "function"}
+
+
 def programs(tier: str):
+    yield from _many_waiters(tier)
     yield from _five(tier)
     yield from _fine(tier)
     yield from _own_errors(tier)
